@@ -574,8 +574,8 @@ def build_jobs(ctx):
 QUICK_MODELS = [("MC_FindPaths.tla", "MC_FindPaths.cfg"), ("MC_Paths.tla", "MC_Paths_dir4.cfg"),
                 ("MC_Paths.tla", "MC_Paths_und5.cfg"), ("MC_Paths.tla", "MC_Paths_dir3.cfg"),
                 ("MC_Paths.tla", "MC_Paths_und4.cfg"), ("MC_Paths.tla", "MC_Paths_dir3p.cfg")]
-THOROUGH_MODELS = [("MC_FindPaths.tla", "MC_FindPaths_thorough.cfg"), ("MC_Paths.tla", "MC_Paths_dir4p.cfg"),
-                   ("MC_Paths.tla", "MC_Paths_dir4l.cfg")] + QUICK_MODELS[1:]
+THOROUGH_MODELS = [("MC_FindPaths.tla", "MC_FindPaths_thorough.cfg"), ("MC_FindPaths.tla", "MC_FindPaths_live.cfg"),
+                   ("MC_Paths.tla", "MC_Paths_dir4p.cfg"), ("MC_Paths.tla", "MC_Paths_dir4l.cfg")] + QUICK_MODELS[1:]
 
 
 def run_models(ctx, models, par):
